@@ -16,7 +16,7 @@ import (
 
 func init() { register("C04", "model_checking", runC04) }
 
-var idRe = regexp.MustCompile(`\b[0-9abcqrw][0-9]\b`)
+var idRe = regexp.MustCompile(`\b[0-9a-fqrw][0-9]\b`)
 
 // template of a transaction name: ids wildcarded
 func templ(name string) string { return idRe.ReplaceAllString(name, "*") }
